@@ -326,7 +326,8 @@ def _resolve_local(func, e):
     """Follow `x = <expr>` for a Name assigned exactly once in func."""
     seen = 0
     while isinstance(e, ast.Name) and seen < 4:
-        asg = [s for s in ast.walk(func) if isinstance(s, ast.Assign) and any(isinstance(t, ast.Name) and t.id == e.id for t in s.targets)]
+        asg = [s for s in ast.walk(func) if (isinstance(s, ast.Assign) and any(isinstance(t, ast.Name) and t.id == e.id for t in s.targets))
+               or (isinstance(s, ast.AnnAssign) and s.value is not None and isinstance(s.target, ast.Name) and s.target.id == e.id)]
         if len(asg) != 1:
             break
         e = asg[0].value
@@ -635,4 +636,14 @@ SILENT += [
     Silent("subclasses-initialise-waiting", DEFER, _BASE_INIT, "    waiting: List[Deferred[Self]]\n",
            more=[(DEFER, "        _ConcurrencyPrimitive.__init__(self)\n", "        self.waiting = []\n"),
                  (DEFER, "    locked = False\n\n    def _cancelAcquire", "    locked = False\n\n    def __init__(self) -> None:\n        self.waiting = []\n\n    def _cancelAcquire")]),
+]
+
+SILENT += [
+    # run() with named temporaries, renamed closure / parameters, annotated local for the function's Deferred
+    Silent("run-with-named-temporaries", DEFER, _EXEC,
+           "            outcome: Deferred[_T] = maybeDeferred(f, *args, **kwargs)\n            outcome.addBoth(self._releaseAndReturn)\n            return outcome\n",
+           more=[(DEFER, "        return self.acquire().addCallback(execute)", "        acquisition = self.acquire()\n        acquisition.addCallback(execute)\n        return acquisition"),
+                 (DEFER, "    def _releaseAndReturn(self, r: _T) -> _T:\n        self.release()\n        return r\n",
+                  "    def _releaseAndReturn(self, passthrough: _T) -> _T:\n        self.release()\n        return passthrough\n"),
+                 (DEFER, "        return succeed(False)\n", "        notConsumed = succeed(False)\n        return notConsumed\n")]),
 ]
